@@ -796,3 +796,59 @@ mod tests {
         assert_eq!(tree, deserialized_tree);
     }
 }
+
+/// Verification hook: node impurity.
+#[cfg(feature = "verif")]
+pub fn verif_impurity<T: RealNumber>(criterion: &SplitCriterion, count: &[usize], n: usize) -> T {
+    impurity(criterion, count, n)
+}
+
+/// Verification hook: index of the first maximal count.
+#[cfg(feature = "verif")]
+pub fn verif_which_max(x: &[usize]) -> usize {
+    which_max(x)
+}
+
+/// Verification hook: one split search over all features from an arbitrary sample-weight state.
+/// Returns (feature, threshold, true child output, false child output) of the chosen split.
+#[cfg(feature = "verif")]
+pub fn verif_best_split_classifier<T: RealNumber, M: Matrix<T>>(
+    x: &M,
+    yi: &[usize],
+    k: usize,
+    samples: Vec<usize>,
+    parameters: DecisionTreeClassifierParameters,
+) -> Option<(usize, T, usize, usize)> {
+    let (_, num_attributes) = x.shape();
+    let mut order: Vec<Vec<usize>> = Vec::new();
+    for i in 0..num_attributes {
+        order.push(x.get_col_as_vec(i).quick_argsort_mut());
+    }
+    let mut count = vec![0; k];
+    let mut n = 0;
+    for i in 0..yi.len() {
+        count[yi[i]] += samples[i];
+        n += samples[i];
+    }
+    let mut tree = DecisionTreeClassifier {
+        nodes: vec![Node::new(0, which_max(&count))],
+        parameters,
+        num_classes: k,
+        classes: vec![T::zero(); k],
+        depth: 0,
+    };
+    let mut visitor = NodeVisitor::<T, M>::new(0, samples, &order, x, yi, 1);
+    let mut false_count = vec![0; k];
+    let parent_impurity = impurity(&tree.parameters.criterion, &count, n);
+    for j in 0..num_attributes {
+        tree.find_best_split(&mut visitor, n, &count, &mut false_count, parent_impurity, j);
+    }
+    tree.nodes[0].split_value.map(|v| {
+        (
+            tree.nodes[0].split_feature,
+            v,
+            visitor.true_child_output,
+            visitor.false_child_output,
+        )
+    })
+}
